@@ -493,6 +493,12 @@ func (rc *runCtx) step(a *Action, idx int) (o observed, err error) {
 		L.PreloadModule(a.Mod, rc.goLoader(a.Ld))
 	case "preload_clear":
 		err = rc.doLua(fmt.Sprintf("package.preload[%q] = nil", a.Mod))
+	case "preload_replace":
+		if a.Val == "empty" {
+			err = rc.doLua("package.preload = {}")
+		} else {
+			err = rc.doLua("local n = {}; for k, v in pairs(package.preload) do n[k] = v end; package.preload = n")
+		}
 	case "loaded_clear":
 		err = rc.doLua(fmt.Sprintf("package.loaded[%q] = nil", a.Mod))
 	case "loaded_set":
